@@ -292,11 +292,9 @@ kani("models::lookup_full_precision_p8", ["C05", "C10", "C20", "C03"], kind="bou
 kani("models::lazy_table_length_p2", ["C19", "C03"], kind="bounded", bound="all-ones tables of 2..=5 entries at P = 2",
      fns=[M + "categorical/lazy_contiguous.rs::LazyContiguousCategoricalEntropyModel::from_floating_point_probabilities_fast"],
      text="more symbols than quanta => Err; whatever is accepted tiles [0,2^P) and inverts exactly")
-kani("models::fast_f32_n3_p8", ["C19", "C03", "C20"], kind="bounded", bound="3 f32 entries (all bit patterns)", timeout=7200, tier="thorough",
-     fns=[M + "categorical.rs::fast_quantized_cdf", M + "categorical/contiguous.rs::ContiguousCategoricalEntropyModel::from_floating_point_probabilities_fast"],
-     text="Ok => model contract (tiling, nonzero, quantile search in bounds, no unreachable_unchecked) for NaN/inf/negative/denormal inputs too")
-kani("models::lazy_vs_eager_f32_n3_p8", ["C05"], kind="bounded", bound="3 non-negative f32 entries", timeout=1800, tier="thorough",
-     fns=[M + "categorical/lazy_contiguous.rs::LazyContiguousCategoricalEntropyModel::{from_floating_point_probabilities_fast,left_cumulative_and_probability,quantile_function}"])
+# models::fast_f32_n3_p8 (3 f32 entries, all bit patterns) found the negative-weight defect in 17 s but does not finish on the repaired
+# code (> 75 min); models::lazy_vs_eager_f32_n3_p8 (3 symbolic non-negative f32 entries, lazy vs eager) did not finish in 5 min and was not pursued.  Not registered: floats are covered with 2 symbolic entries
+# (fast_f32_n2_p8), 3 entries from a small value set (lazy_vs_eager_small_p8) and the rejection contracts over all bit patterns.
 PANIC_QUANT = [r"assertion failed: support\.end\(\) > support\.start\(\)", r"This is a placeholder message; Kani doesn't support message formatted at runtime"]
 for h, tier in (("quantizer_new_i8_u8_p8", "quick"), ("quantizer_new_i16_u8_p8", "quick"), ("quantizer_new_i16_u8_p5", "quick"),
                 ("quantizer_new_u8_u16_p12", "thorough"), ("quantizer_new_i16_u16_p16", "thorough")):
